@@ -337,7 +337,8 @@ func vC33_roles(name string) []string {
 
 func vC33_share() {
 	vC33_calls, vC33_nLocalA, vC33_nLocalG, vC33_nReleased = 0, 0, 0, 0
-	nA, nG := vCase("actors"), vCase("grains")
+	shape := vCase("shape") // 10*actors + grains of the share, one job per shape
+	nA, nG := shape/10, shape%10
 	nPeers := vChoose("peers", 2) + 1 // the target + at most one other survivor
 	leaderRoles := vC33_roles("leaderHasRole")
 	allPeers := []*cluster.Peer{{Host: "p1", RemotingPort: 9}, {Host: "p2", RemotingPort: 9}}
